@@ -37,7 +37,7 @@ Qed.
 
 Lemma Pret0_step i s e : Pret0 i (gs s) -> Pret0 i (gs (step repaired s e)).
 Proof.
-  intros H. destruct e as [c|k|r|a|g|a|g en|g v hr er|g|k|c|c|c|c res|c]; try (refine (Pret0_gtr i _ _ (gtr_step s _ _) H); intros; discriminate).
+  intros H. destruct e as [c|k|r|a|g|a|g en|g v hr er|g|k|c|c|c|c res|c|c]; try (refine (Pret0_gtr i _ _ (gtr_step s _ _) H); intros; discriminate).
   cbn [step]. unfold resolver_return. destruct (nth_error (gs s) g) as [x|] eqn:Ex; [|exact H]. destruct (gpcv x) eqn:Ep; try exact H.
   destruct H as [y [Hy A]]. assert (Hl : g < length (gs s)) by (eapply nth_error_nth_len; eauto). rewrite gs_setg.
   destruct (Nat.eq_dec i g) as [->|Hne].
@@ -66,7 +66,7 @@ Lemma at_store_step s e i v hr er :
   at_store i v hr er (gs s) \/
   (e = EResReturn i v hr er /\ exists x, nth_error (gs s) i = Some x /\ gpcv x = GInRes).
 Proof.
-  intros H. destruct e as [c|k|r|a|g|a|g en|g v0 hr0 er0|g|k|c|c|c|c res|c];
+  intros H. destruct e as [c|k|r|a|g|a|g en|g v0 hr0 er0|g|k|c|c|c|c res|c|c];
     try (left; refine (no_new_store i v hr er _ _ (gtr_step s _ _) H); intros; discriminate).
   cbn [step] in H. unfold resolver_return in H. destruct (nth_error (gs s) g) as [x|] eqn:Ex; [|now left]. destruct (gpcv x) eqn:Ep; try (now left).
   destruct H as [y [Hy Ey]]. assert (Hl : g < length (gs s)) by (eapply nth_error_nth_len; eauto). rewrite gs_setg in Hy.
